@@ -37,6 +37,12 @@ func init() {
 			return
 		}
 		forms := []string{}
+		// extra.share_executor: one Executor object prepares all elements (otherwise each gets its own, as the loop provider does)
+		shareExecutor := false
+		if v, ok := c.Extra["share_executor"]; ok {
+			_ = json.Unmarshal(v, &shareExecutor)
+		}
+		var sharedEx workflow.Executor
 		for i, it := range seq {
 			tag := "seq" + itoa(i)
 			files := map[string][]byte{}
@@ -53,10 +59,16 @@ func init() {
 				forms = append(forms, "")
 				continue
 			}
-			ex, err := workflow.NewExecutor(logger, cfg, reg, builtinfunctions.GetFunctions())
-			if err != nil {
-				res.ParseErr = "harness: " + err.Error()
-				return
+			ex := sharedEx
+			if ex == nil {
+				ex, err = workflow.NewExecutor(logger, cfg, reg, builtinfunctions.GetFunctions())
+				if err != nil {
+					res.ParseErr = "harness: " + err.Error()
+					return
+				}
+				if shareExecutor {
+					sharedEx = ex
+				}
 			}
 			prepared, err := ex.Prepare(wf, files)
 			if err != nil {
